@@ -403,6 +403,9 @@ class _PL(X.PyLower):
             c, m = self.sym.repo.find_method(self.sym.ci, e.func.attr)
             if m is not None:
                 return self.sym.inline(m, [self.lower(a) for a in e.args])
+        if isinstance(e, ast.BinOp) and isinstance(e.op, ast.Pow):
+            v = self.const(e) if self.const is not None else None
+            return C(v) if isinstance(v, int) and not isinstance(v, bool) else ("call", "**", self.lower(e.left), self.lower(e.right))
         if isinstance(e, ast.Call) and isinstance(e.func, ast.Attribute) and not e.keywords:
             # method call on a value (a local, a parenthesised expression): keep the receiver as a term
             root = e.func.value
